@@ -407,7 +407,15 @@ fn check_classdef_reads(
     let bytes = match guard(|| write_fonts::dump_table(cd)) {
         Ok(Ok(b)) => b,
         Ok(Err(e)) => {
-            ctx.inconclusive(format!("{label}: dump_table(classdef) failed: {e}"));
+            // an assignment spanning all 65536 glyph ids cannot be written as
+            // format 1 (glyph count is a u16); the builder still prefers it
+            // when it is the smaller encoding. Recorded, not judged.
+            let span_all = nonzero.keys().next() == Some(&0) && nonzero.keys().next_back() == Some(&0xFFFF);
+            if span_all && fmt == 1 {
+                ctx.count("classdef_format1_span_65536_rejected_by_validation", 1);
+            } else {
+                ctx.inconclusive(format!("{label}: dump_table(classdef) failed: {e}"));
+            }
             return false;
         }
         Err(p) => {
@@ -631,7 +639,7 @@ pub fn classdef_case(ctx: &mut Ctx, idx: usize, rng: &mut Rng) {
 }
 
 pub fn run(ctx: &mut Ctx) {
-    let n = ctx.tier.pick(480usize, 4800);
+    let n = ctx.tier.pick(4000usize, 40000);
     for i in 0..n {
         if !ctx.mine(i) {
             continue;
